@@ -58,6 +58,77 @@ fn block_push(b: &Block, env: &Env) -> String {
     }
 }
 
+/// A character-valued expression: a literal, an `if` ladder, a local, or a call of a small private function of the same
+/// file whose body is one such expression (inlined; `bool` arguments go through `ex`, `char` arguments through here).
+fn cexpr(e: &Expr, env: &Env, fns: &[&ItemFn]) -> String {
+    match e {
+        Expr::Lit(ExprLit { lit: Lit::Char(c), .. }) => format!("{}%N", c.value() as u32),
+        Expr::Paren(p) => cexpr(&p.expr, env, fns),
+        Expr::Block(b) => cexpr(block_value(&b.block).unwrap_or_else(|| panic!("mode: block {}", qs(b))), env, fns),
+        Expr::If(i) => {
+            let th = block_value(&i.then_branch).unwrap_or_else(|| panic!("mode: then-branch {}", qs(&i.then_branch)));
+            let el = &i.else_branch.as_ref().unwrap_or_else(|| panic!("mode: `if` without else")).1;
+            format!("(if {} then {} else {})", ex(&i.cond, env), cexpr(th, env, fns), cexpr(el, env, fns))
+        }
+        Expr::Path(p) => {
+            let id = last_seg(&p.path);
+            env.vars.get(&id).cloned().unwrap_or_else(|| panic!("mode: unknown character variable {}", id))
+        }
+        Expr::Call(c) => {
+            let name = if let Expr::Path(p) = &*c.func { last_seg(&p.path) } else { panic!("mode: call {}", qs(c)) };
+            let g = fns.iter().find(|g| g.sig.ident == name).unwrap_or_else(|| panic!("mode: call of unknown function {}", name));
+            if g.sig.inputs.len() != c.args.len() { panic!("mode: arity of {}", name); }
+            let mut inner = env.clone();
+            for (a, v) in g.sig.inputs.iter().zip(c.args.iter()) {
+                if let FnArg::Typed(pt) = a {
+                    let pn = pat_path_last(&pt.pat).expect("mode: parameter");
+                    let ty = qs(&pt.ty).replace(' ', "");
+                    let term = match ty.as_str() {
+                        "bool" | "u32" => ex(v, env),
+                        "char" => cexpr(v, env, fns),
+                        t => panic!("mode: parameter type {} of {}", t, name),
+                    };
+                    inner.vars.insert(pn, term);
+                } else {
+                    panic!("mode: receiver in {}", name);
+                }
+            }
+            cexpr(block_value(&g.block).unwrap_or_else(|| panic!("mode: body of {}", name)), &inner, fns)
+        }
+        Expr::Match(m) => {
+            // match (a, b) { (true, true) => .., (true, false) => .., .. }  or  match a { true => .., false => .. }
+            let scr: Vec<&Expr> = match &*m.expr { Expr::Tuple(tu) => tu.elems.iter().collect(), e => vec![e] };
+            let scr_t: Vec<String> = scr.iter().map(|e| ex(e, env)).collect();
+            let mut out = String::new();
+            let n = m.arms.len();
+            for (k, arm) in m.arms.iter().enumerate() {
+                if arm.guard.is_some() { panic!("mode: guarded arm"); }
+                let pats: Vec<&Pat> = match &arm.pat { Pat::Tuple(tu) => tu.elems.iter().collect(), p => vec![p] };
+                if pats.len() != scr.len() { panic!("mode: arm pattern {}", qs(&arm.pat)); }
+                let mut conds = vec![];
+                for (p, s) in pats.iter().zip(scr_t.iter()) {
+                    match p {
+                        Pat::Lit(ExprLit { lit: Lit::Bool(b), .. }) => conds.push(if b.value { s.clone() } else { format!("(negb {})", s) }),
+                        Pat::Wild(_) => {}
+                        p => panic!("mode: arm pattern {}", qs(p)),
+                    }
+                }
+                let body = cexpr(&arm.body, env, fns);
+                if k + 1 == n {
+                    // Rust's exhaustiveness check makes the last arm cover whatever is left
+                    out.push_str(&body);
+                } else {
+                    let c = if conds.is_empty() { "true".to_string() } else { conds.iter().skip(1).fold(conds[0].clone(), |a, c| format!("(andb {} {})", a, c)) };
+                    out.push_str(&format!("(if {} then {} else ", c, body));
+                }
+            }
+            out.push_str(&")".repeat(n - 1));
+            out
+        }
+        e => panic!("mode: unsupported character expression {}", qs(e)),
+    }
+}
+
 fn site_mode(src: &Path) -> String {
     let file = read_file(src, "mode.rs");
     let env = Env::new("N");
@@ -104,9 +175,24 @@ fn site_mode(src: &Path) -> String {
     for f in &fns {
         if f.sig.ident == "get_mode_unix" {
             let mut parts = vec![];
+            let mut env = env.clone();
             for st in &f.block.stmts {
-                if let Stmt::Expr(e @ Expr::If(_), _) = st {
-                    parts.push(ladder(e, &env));
+                match st {
+                    // if .. { result.push('l') } else if ..
+                    Stmt::Expr(e @ Expr::If(_), _) => parts.push(ladder(e, &env)),
+                    // result.push(<character expression>)
+                    Stmt::Expr(Expr::MethodCall(m), _) if m.method == "push" && m.args.len() == 1 => parts.push(cexpr(&m.args[0], &env, &fns)),
+                    // let c = <character expression>;   (`let mut result = String::new();` is the accumulator)
+                    Stmt::Local(l) => {
+                        if let Some(init) = &l.init {
+                            if !qs(&init.expr).contains("String") {
+                                let name = pat_path_last(&l.pat).expect("get_mode_unix: let pattern");
+                                let term = cexpr(&init.expr, &env, &fns);
+                                env.vars.insert(name, term);
+                            }
+                        }
+                    }
+                    _ => {}
                 }
             }
             if parts.len() != 10 {
@@ -237,6 +323,24 @@ fn site_ops(src: &Path) -> String {
         }
     }
     let cm = cm.expect("ArithmeticOp::calc: let result = match ...");
+    // the two operands: the parameters' `.to_float()`, written in the arms or bound to locals before the match
+    let params: Vec<String> = calc.sig.inputs.iter().filter_map(|a| if let FnArg::Typed(pt) = a { pat_path_last(&pt.pat) } else { None }).collect();
+    if params.len() != 2 { panic!("calc: expected two operands, found {:?}", params); }
+    let mut role: std::collections::BTreeMap<String, usize> = std::collections::BTreeMap::new();
+    for (k, pn) in params.iter().enumerate() {
+        role.insert(format!("{}.to_float()", pn), k);
+    }
+    for st in &calc.block.stmts {
+        if let Stmt::Local(l) = st {
+            if let Some(init) = &l.init {
+                let it = qs(&init.expr).replace(' ', "");
+                if let Some(k) = role.get(&it).cloned() {
+                    let name = match &l.pat { Pat::Type(pt) => pat_path_last(&pt.pat), p => pat_path_last(p) };
+                    if let Some(n) = name { role.insert(n, k); }
+                }
+            }
+        }
+    }
     let mut arms = vec![];
     for arm in &cm.arms {
         let c = pat_path_last(&arm.pat).expect("calc pattern");
@@ -254,7 +358,7 @@ fn site_ops(src: &Path) -> String {
             }
             e => panic!("calc: arm body {}", qs(e)),
         };
-        if l != "left.to_float()" || r != "right.to_float()" {
+        if role.get(&l) != Some(&0) || role.get(&r) != Some(&1) {
             panic!("calc: operands {} {}", l, r);
         }
         arms.push(format!("A{} => {}", c, sym));
@@ -406,7 +510,29 @@ fn glob_fn(o: &mut String, file: &File, fname: &str, prefix: &str) {
     let mut lc = LitCollector { strs: vec![] };
     lc.visit_block(&f.block);
     let alt = lc.strs.iter().find(|s| s.starts_with('(') && s.contains('|')).unwrap_or_else(|| panic!("{}: alternation regex literal not found", fname)).clone();
-    let fmt = lc.strs.iter().find(|s| s.contains("{}")).unwrap_or_else(|| panic!("{}: format literal not found", fname)).clone();
+    // the anchoring format literal, in the function itself or in a one-parameter private helper it calls
+    let placeholder = |x: &String| -> Option<String> {
+        let a = x.find('{')?;
+        let b = a + x[a..].find('}')?;
+        if x[a + 1..b].chars().all(|c| c.is_alphanumeric() || c == '_') { Some(format!("{}{{}}{}", &x[..a], &x[b + 1..])) } else { None }
+    };
+    let mut fmt = lc.strs.iter().find_map(placeholder);
+    if fmt.is_none() {
+        let body = qs(&f.block).replace(' ', "");
+        for it in &file.items {
+            if let Item::Fn(g) = it {
+                if g.sig.ident != fname && g.sig.inputs.len() == 1 && body.contains(&format!("{}(", g.sig.ident)) {
+                    let mut lg = LitCollector { strs: vec![] };
+                    lg.visit_block(&g.block);
+                    if let Some(x) = lg.strs.iter().find_map(placeholder) {
+                        if fmt.is_some() { panic!("{}: two helpers with a format literal", fname); }
+                        fmt = Some(x);
+                    }
+                }
+            }
+        }
+    }
+    let fmt = fmt.unwrap_or_else(|| panic!("{}: format literal not found", fname));
     let alts = alternation_chars(&alt);
     let mut mc = MatchCollector { matches: vec![] };
     mc.visit_block(&f.block);
@@ -484,6 +610,47 @@ impl<'a> syn::visit::Visit<'a> for LetCollector<'a> {
     }
 }
 
+fn is_continue_block(b: &Block) -> bool {
+    b.stmts.len() == 1 && matches!(&b.stmts[0], Stmt::Expr(Expr::Continue(_), _))
+}
+
+/// names of the methods called on `self` in a block, in order of appearance
+fn self_calls(b: &Block) -> Vec<String> {
+    struct C { names: Vec<String> }
+    impl<'a> syn::visit::Visit<'a> for C {
+        fn visit_expr_method_call(&mut self, m: &'a ExprMethodCall) {
+            if qs(&m.receiver) == "self" {
+                self.names.push(m.method.to_string());
+            }
+            syn::visit::visit_expr_method_call(self, m);
+        }
+    }
+    let mut c = C { names: vec![] };
+    syn::visit::Visit::visit_block(&mut c, b);
+    c.names
+}
+
+/// the text (spaces removed) of the statements that follow the given `if` in the block that contains it as a statement
+fn rest_after_if(top: &Block, target: &ExprIf) -> Option<String> {
+    struct B<'a> { target: String, found: Option<String>, _p: std::marker::PhantomData<&'a ()> }
+    impl<'a> syn::visit::Visit<'a> for B<'a> {
+        fn visit_block(&mut self, b: &'a Block) {
+            for (k, st) in b.stmts.iter().enumerate() {
+                if let Stmt::Expr(Expr::If(i), _) = st {
+                    if qs(i) == self.target && self.found.is_none() {
+                        let rest: Vec<String> = b.stmts[k + 1..].iter().map(|s| qs(s).replace(' ', "")).collect();
+                        self.found = Some(rest.join(""));
+                    }
+                }
+            }
+            syn::visit::visit_block(self, b);
+        }
+    }
+    let mut v = B { target: qs(target), found: None, _p: std::marker::PhantomData };
+    syn::visit::Visit::visit_block(&mut v, top);
+    v.found
+}
+
 struct IdentCollector {
     ids: std::collections::BTreeSet<String>,
 }
@@ -523,22 +690,23 @@ fn site_gates(src: &Path) -> String {
     let mut lc = LetCollector { lets: vec![] };
     lc.visit_block(&f.block);
     let mut n_canon = None;
-    let mut n_base = None;
     for (p, e) in &lc.lets {
         let name = pat_path_last(p).unwrap_or_default();
         if contains_text(*e, "calc_depth(") && n_canon.is_none() {
             n_canon = Some(name.clone());
         }
-        if let Expr::Match(m) = e {
-            if let Expr::Path(sp) = &*m.expr {
-                if last_seg(&sp.path) == p_root {
-                    if n_base.is_some() { panic!("two locals are a match on {}", p_root); }
-                    n_base = Some(name.clone());
-                }
-            }
-        }
     }
     let n_canon = n_canon.expect("visit_dir: the local computed by calc_depth");
+    // the base depth: a `match` or an `if` over the root-depth parameter and the canonical depth
+    let mut n_base = None;
+    for (p, e) in &lc.lets {
+        let name = pat_path_last(p).unwrap_or_default();
+        let ids = idents_of(*e);
+        if matches!(e, Expr::Match(_) | Expr::If(_)) && ids.contains(&p_root) && ids.contains(&n_canon) {
+            if n_base.is_some() { panic!("two locals are computed from {} and {}", p_root, n_canon); }
+            n_base = Some(name.clone());
+        }
+    }
     let n_base = n_base.expect("visit_dir: the local that is a match on the root depth");
     let mut n_depth = None;
     for (p, e) in &lc.lets {
@@ -554,6 +722,7 @@ fn site_gates(src: &Path) -> String {
         .with("self.is_buffered()", "is_buffered")
         .with("self.query.limit", "limit")
         .with("self.found", "found")
+        .with_helpers(&file.items, "Searcher")
         .with(&p_min, "min_depth")
         .with(&p_max, "max_depth")
         .with(&p_root, "root_depth")
@@ -566,22 +735,8 @@ fn site_gates(src: &Path) -> String {
     for (p, e) in &lc.lets {
         let name = pat_path_last(p).unwrap_or_default();
         if name == n_base {
-            // match root_depth { 0 => canonical_depth, _ => root_depth }
-            if let Expr::Match(m) = e {
-                let scr = ex(&m.expr, &env);
-                let mut zero = None;
-                let mut other = None;
-                for arm in &m.arms {
-                    match &arm.pat {
-                        Pat::Lit(ExprLit { lit: Lit::Int(i), .. }) if i.base10_parse::<u64>().unwrap() == 0 => zero = Some(ex(&arm.body, &env)),
-                        Pat::Wild(_) => other = Some(ex(&arm.body, &env)),
-                        p => panic!("base_depth: arm pattern {}", qs(p)),
-                    }
-                }
-                base = Some(format!("if N.eqb {} 0 then {} else {}", scr, zero.expect("base_depth: 0 arm"), other.expect("base_depth: _ arm")));
-            } else {
-                panic!("base_depth is not a match: {}", qs(*e));
-            }
+            // match root_depth { 0 => canonical_depth, _ => root_depth }   or the same as an `if`
+            base = Some(ex(e, &env));
         }
         if name == n_depth {
             depth = Some(ex(e, &env));
@@ -590,8 +745,22 @@ fn site_gates(src: &Path) -> String {
     writeln!(o, "Definition base_depth_of (root_depth canonical_depth : N) : N := {}.", base.expect("let base_depth")).unwrap();
     writeln!(o, "Definition depth_of (canonical_depth base_depth : N) : N := {}.", depth.expect("let depth")).unwrap();
     // does the u32 subtraction stay non-negative?  (recorded so that the model can flag underflow)
+    // the `if`s of visit_dir, then those of the private methods it calls (a loop moved into a helper stays in view)
     let mut ic = IfCollector { ifs: vec![] };
     ic.visit_block(&f.block);
+    let mut seen: Vec<String> = vec!["visit_dir".into(), "check_file".into(), "is_buffered".into()];
+    let mut todo: Vec<String> = self_calls(&f.block);
+    while !todo.is_empty() {
+        let name = todo.remove(0);
+        if seen.contains(&name) { continue; }
+        seen.push(name.clone());
+        if let Some(g) = find_impl_fn(&file.items, "Searcher", &name) {
+            if cfg_enabled(&g.attrs) {
+                ic.visit_block(&g.block);
+                todo.extend(self_calls(&g.block));
+            }
+        }
+    }
     let mut breaks = vec![];
     let mut report = None;
     let mut descend = None;
@@ -604,8 +773,16 @@ fn site_gates(src: &Path) -> String {
             report = Some(ex(&i.cond, &env));
         } else if idents_of(&*i.cond).contains(&p_max) {
             if descend.is_some() { panic!("two conditions mention max_depth"); }
-            if !contains_text(&i.then_branch, "visit_dir") && !contains_text(&i.then_branch, "dir_queue") { panic!("max_depth gate does not guard the descent"); }
-            descend = Some(ex(&i.cond, &env));
+            if is_continue_block(&i.then_branch) {
+                // `if too_deep { continue; }` - what follows in the loop body must be the descent and nothing that reports
+                let rest = rest_after_if(&f.block, i).expect("max_depth gate: enclosing block");
+                if rest.contains("check_file") { panic!("max_depth `continue` gate also skips a check_file call"); }
+                if !rest.contains("visit_") && !rest.contains("dir_queue") { panic!("max_depth `continue` gate does not guard the descent"); }
+                descend = Some(format!("(negb {})", ex(&i.cond, &env)));
+            } else {
+                if !contains_text(&i.then_branch, "visit_") && !contains_text(&i.then_branch, "dir_queue") { panic!("max_depth gate does not guard the descent"); }
+                descend = Some(ex(&i.cond, &env));
+            }
         }
     }
     if breaks.len() != 2 {
@@ -626,7 +803,7 @@ fn site_gates(src: &Path) -> String {
 // ---------------- E20: output/*.rs literals ----------------
 
 /// `Some("lit".to_owned())` -> Some(lit); `None` -> None; `Some(format!("a{}b", record))` -> Some("a{}b")
-fn opt_literal(e: &Expr) -> Option<String> {
+fn opt_literal(e: &Expr, consts: &std::collections::BTreeMap<String, Lit>) -> Option<String> {
     match e {
         Expr::Path(p) if last_seg(&p.path) == "None" => None,
         Expr::Call(c) => {
@@ -636,6 +813,13 @@ fn opt_literal(e: &Expr) -> Option<String> {
                     syn::visit::Visit::visit_expr(&mut lc, &c.args[0]);
                     if lc.strs.len() == 1 {
                         return Some(lc.strs[0].clone());
+                    }
+                    // a named constant: Some(ARRAY_START.to_owned())
+                    if lc.strs.is_empty() {
+                        let named: Vec<String> = idents_of(&c.args[0]).into_iter().filter_map(|i| match consts.get(&i) { Some(Lit::Str(s)) => Some(s.value()), _ => None }).collect();
+                        if named.len() == 1 {
+                            return Some(named[0].clone());
+                        }
                     }
                 }
             }
@@ -655,7 +839,7 @@ fn formatter_method(items: &[Item], ty: &str, m: &str) -> Option<Option<String>>
                             if f.sig.ident == m {
                                 if let Some(Stmt::Expr(e, None)) = f.block.stmts.last() {
                                     if f.block.stmts.len() == 1 {
-                                        return Some(opt_literal(e));
+                                        return Some(opt_literal(e, &consts_of(items)));
                                     }
                                 }
                                 return None; // not a literal-returning method (e.g. serde_json / csv writer)
@@ -703,7 +887,12 @@ fn site_fmt(src: &Path) -> String {
                     if f.sig.ident == "format_element" {
                         let mut lc = LitCollector { strs: vec![] };
                         syn::visit::Visit::visit_block(&mut lc, &f.block);
-                        elem = lc.strs.iter().find(|x| x.contains("{}")).cloned();
+                        // "<td>{}</td>" or, with an inline argument, "<td>{escaped}</td>"
+                        elem = lc.strs.iter().find_map(|x| {
+                            let a = x.find('{')?;
+                            let b = a + x[a..].find('}')?;
+                            if x[a + 1..b].chars().all(|c| c.is_alphanumeric() || c == '_') { Some(format!("{}{{}}{}", &x[..a], &x[b + 1..])) } else { None }
+                        });
                         escapes = qs(&f.block).contains("escape");
                     }
                 }
@@ -734,6 +923,13 @@ fn site_fmt(src: &Path) -> String {
                         fn visit_lit_char(&mut self, l: &'b LitChar) { self.0.push(l.value()); }
                     }
                     syn::visit::Visit::visit_expr(&mut CC(&mut chars), &fv.expr);
+                    if chars.is_empty() {
+                        // a named character constant
+                        let cs = consts_of(&flat.items);
+                        for i in idents_of(&fv.expr) {
+                            if let Some(Lit::Char(c)) = cs.get(&i) { chars.push(c.value()); }
+                        }
+                    }
                     if fname == "record_separator" { rs = chars.first().cloned(); }
                     if fname == "line_separator" { ls = Some(chars.first().cloned()); }
                 }
@@ -866,21 +1062,74 @@ fn site_size(src: &Path) -> String {
                 let n: u64 = between(&cond, "length>", "&&").unwrap_or_else(|| panic!("size rung condition {}", cond)).parse().expect("rung length");
                 let sfx = between(&cond, "ends_with(\"", "\")").unwrap_or_else(|| panic!("size rung suffix {}", cond)).to_string();
                 let body = qs(&i.then_branch).replace(' ', "");
-                let m: u64 = between(&body, "(length-", ")").unwrap_or_else(|| panic!("size rung strip {}", body)).parse().expect("strip length");
-                let ty = between(&body, "parse::<", ">").unwrap_or_else(|| panic!("size rung parse type")).to_string();
-                // the Ok arm's factors
-                let mut mc = MatchCollector { matches: vec![] };
-                mc.visit_block(&i.then_branch);
-                let mm = mc.matches.first().expect("size rung match");
-                let okarm = mm.arms.iter().find(|a| qs(&a.pat).starts_with("Ok")).expect("Ok arm");
-                let mut nl = NumLits { lits: vec![] };
-                nl.visit_expr(&okarm.body);
-                let factors: Vec<String> = nl.lits.iter().map(|l| {
+                let consts = consts_of(&file.items);
+                // factors in order of appearance: literals, or named constants of the file
+                struct Factors<'c> { lits: Vec<String>, consts: &'c std::collections::BTreeMap<String, Lit> }
+                impl<'a, 'c> syn::visit::Visit<'a> for Factors<'c> {
+                    fn visit_lit_float(&mut self, l: &'a LitFloat) { self.lits.push(l.base10_digits().to_string()); }
+                    fn visit_lit_int(&mut self, l: &'a LitInt) { self.lits.push(l.base10_digits().to_string()); }
+                    fn visit_expr_path(&mut self, p: &'a ExprPath) {
+                        match self.consts.get(&last_seg(&p.path)) {
+                            Some(Lit::Float(l)) => self.lits.push(l.base10_digits().to_string()),
+                            Some(Lit::Int(l)) => self.lits.push(l.base10_digits().to_string()),
+                            _ => {}
+                        }
+                    }
+                }
+                let (m, ty, fac_lits, cast): (u64, String, Vec<String>, bool) = if let Some(ms) = between(&body, "(length-", ")") {
+                    // match string[..(length - M)].parse::<T>() { Ok(size) => return Some((size * F ..) as u64), _ => return None }
+                    let ty = between(&body, "parse::<", ">").unwrap_or_else(|| panic!("size rung parse type")).to_string();
+                    let mut mc = MatchCollector { matches: vec![] };
+                    mc.visit_block(&i.then_branch);
+                    if mc.matches.is_empty() && body.ends_with(&format!("{{returnstring[..(length-{})].parse::<{}>().ok();}}", ms, ty)) {
+                        // return string[..(length - M)].parse::<T>().ok();   - no factor at all
+                        (ms.parse().expect("strip length"), ty, vec![], true)
+                    } else {
+                        let mm = mc.matches.first().expect("size rung match");
+                        let okarm = mm.arms.iter().find(|a| qs(&a.pat).starts_with("Ok")).expect("Ok arm");
+                        let mut nl = Factors { lits: vec![], consts: &consts };
+                        nl.visit_expr(&okarm.body);
+                        (ms.parse().expect("strip length"), ty, nl.lits, qs(&okarm.body).replace(' ', "").contains("asu64"))
+                    }
+                } else {
+                    // return helper(&string, M).map(|size| (size * F ..) as u64)   with
+                    // fn helper(text: &str, n: usize) -> Option<T> { text[..(text.len() - n)].parse::<T>().ok() }
+                    struct Calls<'a> { calls: Vec<&'a ExprCall>, closures: Vec<&'a ExprClosure> }
+                    impl<'a> syn::visit::Visit<'a> for Calls<'a> {
+                        fn visit_expr_call(&mut self, c: &'a ExprCall) { self.calls.push(c); syn::visit::visit_expr_call(self, c); }
+                        fn visit_expr_closure(&mut self, c: &'a ExprClosure) { self.closures.push(c); syn::visit::visit_expr_closure(self, c); }
+                    }
+                    let mut cs = Calls { calls: vec![], closures: vec![] };
+                    cs.visit_block(&i.then_branch);
+                    let mut found = None;
+                    for c in &cs.calls {
+                        if let Expr::Path(pp) = &*c.func {
+                            if let Some(g) = find_fn(&file.items, &last_seg(&pp.path)) {
+                                let gb = qs(&g.block).replace(' ', "");
+                                if gb.contains("parse::<") && g.sig.inputs.len() == 2 && c.args.len() == 2 {
+                                    let pn: Vec<String> = g.sig.inputs.iter().filter_map(|a| if let FnArg::Typed(pt) = a { pat_path_last(&pt.pat) } else { None }).collect();
+                                    if !gb.contains(&format!("[..({}.len()-{})].parse::<", pn[0], pn[1])) { panic!("size rung helper {}", gb); }
+                                    if !gb.ends_with(">().ok()}") { panic!("size rung helper result {}", gb); }
+                                    let ty = between(&gb, "parse::<", ">").unwrap().to_string();
+                                    let ms = match &c.args[1] { Expr::Lit(ExprLit { lit: Lit::Int(l), .. }) => l.base10_parse::<u64>().unwrap(), e => panic!("size rung strip {}", qs(e)) };
+                                    if !qs(&c.args[0]).replace(' ', "").ends_with("string") { panic!("size rung helper argument {}", qs(&c.args[0])); }
+                                    found = Some((ms, ty));
+                                }
+                            }
+                        }
+                    }
+                    let (ms, ty) = found.unwrap_or_else(|| panic!("size rung strip {}", body));
+                    if cs.closures.len() != 1 || !body.contains(").map(|") { panic!("size rung: expected one `.map(|size| ..)` closure"); }
+                    let mut nl = Factors { lits: vec![], consts: &consts };
+                    nl.visit_expr(&cs.closures[0].body);
+                    (ms, ty, nl.lits, qs(&cs.closures[0].body).replace(' ', "").contains("asu64"))
+                };
+                let factors: Vec<String> = fac_lits.iter().map(|l| {
                     let v: f64 = l.parse().unwrap();
                     if v.fract() != 0.0 { panic!("non-integral factor {}", l); }
                     format!("{}%Z", v as u64)
                 }).collect();
-                if !qs(&okarm.body).replace(' ', "").contains("asu64") && ty == "f64" { panic!("size rung: float result not cast to u64"); }
+                if !cast && ty == "f64" { panic!("size rung: float result not cast to u64"); }
                 rungs.push(format!("({}, {}%N, {}%N, [{}], {})", coq_str(&sfx), n, m, factors.join("; "), if ty == "f64" { "true" } else if ty == "u64" { "false" } else { panic!("size rung type {}", ty) }));
             }
             Stmt::Expr(e, None) => {
@@ -928,6 +1177,8 @@ struct WriteSites {
     propagated: usize,
     unhandled: usize,
     detail: Vec<String>,
+    /// functions whose one-expression body is the BrokenPipe test
+    bp_helpers: Vec<String>,
 }
 fn mentions_stdout<T: quote::ToTokens>(t: &T) -> bool {
     qs(t).replace(' ', "").contains("stdout()")
@@ -944,7 +1195,8 @@ impl<'a> syn::visit::Visit<'a> for WriteSites {
     fn visit_expr_if(&mut self, i: &'a ExprIf) {
         if let Expr::Let(l) = &*i.cond {
             if mentions_stdout(&l.expr) && qs(&l.pat).starts_with("Err") {
-                if qs(&i.then_branch).contains("BrokenPipe") {
+                let then_txt = qs(&i.then_branch).replace(' ', "");
+                if then_txt.contains("BrokenPipe") || self.bp_helpers.iter().any(|h| then_txt.contains(&format!("{}(", h))) {
                     self.guarded += 1;
                 } else {
                     self.unhandled += 1;
@@ -983,10 +1235,38 @@ impl<'a> syn::visit::Visit<'a> for WriteSites {
 fn site_pipe(src: &Path) -> String {
     use syn::visit::Visit;
     let file = read_file(src, "searcher.rs");
-    let mut ws = WriteSites { guarded: 0, ignored: 0, propagated: 0, unhandled: 0, detail: vec![] };
+    // helpers like `fn is_broken_pipe(e: &io::Error) -> bool { e.kind() == ErrorKind::BrokenPipe }`
+    let mut bp_helpers = vec![];
+    for it in &file.items {
+        match it {
+            Item::Fn(g) => {
+                if block_value(&g.block).map_or(false, |e| qs(e).contains("BrokenPipe")) { bp_helpers.push(g.sig.ident.to_string()); }
+            }
+            Item::Impl(im) => {
+                for ii in &im.items {
+                    if let ImplItem::Fn(g) = ii {
+                        if block_value(&g.block).map_or(false, |e| qs(e).contains("BrokenPipe")) { bp_helpers.push(g.sig.ident.to_string()); }
+                    }
+                }
+            }
+            _ => {}
+        }
+    }
+    let mut ws = WriteSites { guarded: 0, ignored: 0, propagated: 0, unhandled: 0, detail: vec![], bp_helpers };
     for name in ["list_search_results", "check_file", "visit_dir"] {
-        let f = find_impl_fn(&file.items, "Searcher", name).unwrap_or_else(|| panic!("Searcher::{} not found", name));
-        ws.visit_block(&f.block);
+        find_impl_fn(&file.items, "Searcher", name).unwrap_or_else(|| panic!("Searcher::{} not found", name));
+    }
+    // every method of Searcher (code moved out of the three into a private helper stays in view)
+    for it in &file.items {
+        if let Item::Impl(im) = it {
+            if im.trait_.is_none() && qs(&im.self_ty).replace(' ', "").starts_with("Searcher") {
+                for ii in &im.items {
+                    if let ImplItem::Fn(g) = ii {
+                        if cfg_enabled(&g.attrs) { ws.visit_block(&g.block); }
+                    }
+                }
+            }
+        }
     }
     let mut o = String::from(HDR_N);
     o.push_str("(* from src/searcher.rs: every write to std::io::stdout() in list_search_results / check_file / visit_dir,\n   classified by what happens to its io::Error, and from src/main.rs: the exit-status mapping *)\n");
@@ -1002,16 +1282,62 @@ fn site_pipe(src: &Path) -> String {
     let es = find_fn(&mainf.items, "exec_search").expect("exec_search");
     let body = qs(&es.block).replace(' ', "");
     let unwraps_search = body.contains("list_search_results().unwrap()");
-    // match error_count { 0 => 0, _ => 1 }
-    let zero = between(&body, "matcherror_count{0=>", ",").unwrap_or_else(|| panic!("exec_search: error_count mapping")).to_string();
-    let other = between(&body, ",_=>", ",}").or_else(|| between(&body, ",_=>", "}")).unwrap_or_else(|| panic!("exec_search: error_count mapping (_)")).to_string();
+    // match error_count { 0 => 0, _ => 1 }   or   if error_count == 0 { 0 } else { 1 }
+    let consts = consts_of(&mainf.items);
+    let int_of = |e: &Expr| -> String {
+        let e = match e { Expr::Block(b) => block_value(&b.block).expect("status: block"), e => e };
+        match e {
+            Expr::Lit(ExprLit { lit: Lit::Int(i), .. }) => i.base10_digits().to_string(),
+            Expr::Path(p) => match consts.get(&last_seg(&p.path)) {
+                Some(Lit::Int(i)) => i.base10_digits().to_string(),
+                _ => panic!("exec_search: status {} is not an integer constant", qs(e)),
+            },
+            e => panic!("exec_search: status expression {}", qs(e)),
+        }
+    };
+    struct EC<'a> { m: Vec<&'a ExprMatch>, i: Vec<&'a ExprIf> }
+    impl<'a> syn::visit::Visit<'a> for EC<'a> {
+        fn visit_expr_match(&mut self, m: &'a ExprMatch) {
+            if qs(&m.expr).contains("error_count") { self.m.push(m); }
+            syn::visit::visit_expr_match(self, m);
+        }
+        fn visit_expr_if(&mut self, i: &'a ExprIf) {
+            if qs(&i.cond).contains("error_count") { self.i.push(i); }
+            syn::visit::visit_expr_if(self, i);
+        }
+    }
+    let mut ec = EC { m: vec![], i: vec![] };
+    ec.visit_block(&es.block);
+    if ec.m.len() + ec.i.len() != 1 { panic!("exec_search: error_count mapping"); }
+    let (zero, other) = if let Some(m) = ec.m.first() {
+        let mut z = None;
+        let mut o2 = None;
+        for arm in &m.arms {
+            match &arm.pat {
+                Pat::Lit(ExprLit { lit: Lit::Int(i), .. }) if i.base10_digits() == "0" => z = Some(int_of(&arm.body)),
+                Pat::Wild(_) => o2 = Some(int_of(&arm.body)),
+                p => panic!("exec_search: error_count arm {}", qs(p)),
+            }
+        }
+        (z.expect("exec_search: error_count mapping (0)"), o2.expect("exec_search: error_count mapping (_)"))
+    } else {
+        let i = ec.i[0];
+        let th = int_of(block_value(&i.then_branch).expect("exec_search: then"));
+        let el = int_of(&i.else_branch.as_ref().expect("exec_search: else").1);
+        let c = qs(&i.cond).replace(' ', "");
+        if c.ends_with("error_count==0") { (th, el) }
+        else if c.ends_with("error_count!=0") || c.ends_with("error_count>0") { (el, th) }
+        else { panic!("exec_search: error_count condition {}", c) }
+    };
     let err = between(&body, "error_message(\"query\",&err);", "}").unwrap_or_else(|| panic!("exec_search: Err arm")).to_string();
+    let err = match consts.get(&err) { Some(Lit::Int(i)) => i.base10_digits().to_string(), _ => err };
     writeln!(o, "Definition status_no_errors : N := {}%N.\nDefinition status_some_errors : N := {}%N.\nDefinition status_parse_error : N := {}%N.", zero, other, err).unwrap();
     writeln!(o, "Definition main_unwraps_search_result : bool := {}.", unwraps_search).unwrap();
     let util = read_file(src, "util/mod.rs");
     let ee = find_fn(&util.items, "error_exit").expect("error_exit");
     let eb = qs(&ee.block).replace(' ', "");
-    let code = between(&eb, "exit(", ")").expect("error_exit code");
+    let code = between(&eb, "exit(", ")").expect("error_exit code").to_string();
+    let code = match consts_of(&util.items).get(&code) { Some(Lit::Int(i)) => i.base10_digits().to_string(), _ => code };
     writeln!(o, "Definition status_error_exit : N := {}%N.", code).unwrap();
     o
 }
@@ -1026,7 +1352,7 @@ fn site_ext(src: &Path) -> String {
     let mut o = String::from(HDR_N);
     o.push_str("(* from src/util/mod.rs, fn has_extension *)\n");
     let stmts = &f.block.stmts;
-    if stmts.len() != 3 { panic!("has_extension: {} statements, expected let / for / false", stmts.len()); }
+    if stmts.len() != 3 && stmts.len() != 2 { panic!("has_extension: {} statements, expected let / for / false  or  let / iter().any(..)", stmts.len()); }
     // let s = file_name.to_ascii_lowercase();
     let (svar, lowered) = match &stmts[0] {
         Stmt::Local(l) => {
@@ -1038,7 +1364,29 @@ fn site_ext(src: &Path) -> String {
         s => panic!("has_extension: first statement {}", qs(s)),
     };
     // for ext in extensions { if s.ends_with(ext) { return true; } }
+    let test_of = |m: &ExprMethodCall, x: &str| -> String {
+        if !(qs(&m.receiver) == svar && m.args.len() == 1 && qs(&m.args[0]) == x) { panic!("has_extension: test `{}`", qs(m)); }
+        match m.method.to_string().as_str() {
+            "ends_with" => format!("(fun {} : str => ends_with {} {})", x, x, lowered),
+            "starts_with" => format!("(fun {} : str => starts_with {} {})", x, x, lowered),
+            other => panic!("has_extension: test method {}", other),
+        }
+    };
     let test = match &stmts[1] {
+        // extensions.iter().any(|ext| s.ends_with(ext))
+        Stmt::Expr(Expr::MethodCall(any), None) if stmts.len() == 2 => {
+            if any.method != "any" || qs(&any.receiver).replace(' ', "") != "extensions.iter()" || any.args.len() != 1 { panic!("has_extension: second statement {}", qs(any)); }
+            match &any.args[0] {
+                Expr::Closure(c) if c.inputs.len() == 1 => {
+                    let x = qs(&c.inputs[0]);
+                    match &*c.body {
+                        Expr::MethodCall(m) => test_of(m, &x),
+                        b => panic!("has_extension: closure body {}", qs(b)),
+                    }
+                }
+                a => panic!("has_extension: any({})", qs(a)),
+            }
+        }
         Stmt::Expr(Expr::ForLoop(fl), _) => {
             let x = qs(&fl.pat);
             if qs(&fl.expr).replace(' ', "") != "extensions" { panic!("has_extension: loop over {}", qs(&fl.expr)); }
@@ -1064,9 +1412,11 @@ fn site_ext(src: &Path) -> String {
         }
         s => panic!("has_extension: second statement {}", qs(s)),
     };
-    match &stmts[2] {
-        Stmt::Expr(e, None) if qs(e) == "false" => {}
-        s => panic!("has_extension: final expression {}", qs(s)),
+    if stmts.len() == 3 {
+        match &stmts[2] {
+            Stmt::Expr(e, None) if qs(e) == "false" => {}
+            s => panic!("has_extension: final expression {}", qs(s)),
+        }
     }
     writeln!(o, "Definition has_extension (file_name : str) (extensions : list str) : bool := existsb {} extensions.", test).unwrap();
     // default lists: Config::default() fields `is_*: vec_of_strings![...]`
